@@ -8,9 +8,12 @@ import random
 from . import frames_gen as G
 
 PROP = "C10"
-# second oracle in the same Eval: the reference interpretation (M_FramesRef.ref_extract) vs the implementation
-KINDS = {"main": dict(G.KIND_EXTRACT, imports="From SS Require Import Base M_Frames M_FramesRef.",
-                      mismatch="mismatches2")}
+# One Eval per cases file checks, for every case: implementation = model (ecase_ok), implementation =
+# reference interpretation (ref_case_ok), and the generator's claim "this table is rank-ordered below n and
+# its explicit fuel bound is within the model's default fuel" (rank_claim_ok), which is the hypothesis of
+# C10_model_eq_ref_total / C10_fuel_sufficient.
+KINDS = {"main": dict(imports="From SS Require Import Base M_Frames M_FramesRef.", type="rcase",
+                      mismatch="mismatches3", nontrivial="count_nontrivial3")}
 RULE = ("rank-ordered (acyclic) random unwrap/elaborate tables over 5 objects x 5 frames (sparse) and densely connected nested tables "
         "rooted at object 0 over 3-4 objects x 5-7 frames (frames at several depths; hooks that prune/replace/insert frames that edit again), result alphabets "
         "{None, item, tuple, list, iterator(+raise), raise, empty} x {None, PRUNE, replace, insert-before, single item, raise}, "
@@ -114,6 +117,19 @@ def exhaustive(no=3, nf=2, stride=1, offset=0):
                "attr": {}, "ctxs": {}, "fill": {}, "faults": [], "with_ctx": False, "root": ["O", 0], "mode": "extract"}
 
 
+def exhaustive_samecode(no=3, stride=1, offset=0):
+    """2 frames that are two live frames of ONE function: a single hook row serves both."""
+    us = [ALPH_U(o, no, 2) for o in range(no)]
+    n = 0
+    for combo in itertools.product(*us, ALPH_E(1, no, 2)):
+        n += 1
+        if (n + offset) % stride:
+            continue
+        yield {"nf": 2, "no": no, "frames": {"0": ["plain"], "1": ["samecode", 0]},
+               "unwrap": {str(o): combo[o] for o in range(no)}, "elab": {"0": combo[no]},
+               "attr": {}, "ctxs": {}, "fill": {}, "faults": [], "with_ctx": False, "root": ["O", 0], "mode": "extract"}
+
+
 def make_inputs(tier, seed):
     rng = random.Random(seed * 7919 + 10)
     yield from specials()
@@ -125,14 +141,66 @@ def make_inputs(tier, seed):
     rng2 = random.Random(seed * 7919 + 11)
     for _ in range(n):
         yield G.gen_dense(rng2, nf=rng2.choice([5, 7]), no=rng2.choice([3, 4]))
+    # real generator objects (frames that share a code object: two instances of one generator function)
+    rng3 = random.Random(seed * 7919 + 12)
+    made = 0
+    while made < n // 5:
+        d = G.gen_case(rng3, nf=5, no=5, gens=True, weird=False, gen2=True)
+        if G.acyclic(d):
+            made += 1
+            yield d
+            # also rooted at every generator object (the items below it are reached under its origin)
+            for o, sp in d["unwrap"].items():
+                if sp[0] == "gen" and ["O", int(o)] != d["root"]:
+                    yield dict(d, root=["O", int(o)])
     if tier == "thorough":
         yield from exhaustive(3, 2)
+        yield from exhaustive_samecode(3)
     else:
         yield from exhaustive(3, 2, stride=97, offset=seed)
+        yield from exhaustive_samecode(3, stride=11, offset=seed)
 
 
 run_case = G.run_impl
-coq_case = G.c_case
+
+
+def ranked_below(desc):
+    """n such that the table is `ranked n` in the sense of M_FramesRef (0 = no claim): every unwrap result of
+    object o / effective elaborate payload of frame f names only items of index > o / > f, next_inner only as
+    the last element of a sequence or as the bare result.  False for the guard chains (they end in frame 0 or
+    in a self-loop), for tables with a non-final next_inner and for generator objects."""
+    n = max(desc["nf"], desc["no"])
+
+    def above(lo, it):
+        return lo < it[1] < n
+    for o, sp in desc["unwrap"].items():
+        o = int(o)
+        if sp[0] == "one":
+            items = [sp[1]]
+        elif sp[0] in ("seq", "iter"):
+            items = [i for i in sp[1] if i]
+        elif sp[0] in ("none", "raise"):
+            items = []
+        else:
+            return 0
+        if not all(above(o, i) for i in items):
+            return 0
+    for f in range(desc["nf"]):
+        sp = G.eff_elab(desc, f)
+        pl = [sp[1]] if sp[0] == "one" else (sp[1] if sp[0] == "seq" else [])
+        for idx, r in enumerate(pl):
+            if r[0] == "N" and idx != len(pl) - 1:
+                return 0
+            if r[0] == "I" and not above(f, r[1]):
+                return 0
+    for f in desc["elab"]:
+        if int(f) >= desc["nf"]:
+            return 0
+    return n if desc["root"][1] < n else 0
+
+
+def coq_case(desc, obs):
+    return f"({ranked_below(desc)}, {G.c_case(desc, obs)})"
 
 
 def direct_oracle(desc, obs):
@@ -142,7 +210,9 @@ def direct_oracle(desc, obs):
 
 
 def classify(desc, obs):
-    labs = ["elab:" + ",".join(sorted({v[0] for v in desc["elab"].values()})) if desc["nf"] <= 2 else "random"]
+    labs = ["ranked" if ranked_below(desc) else "not-ranked",
+            "shared-code" if any(v[0] == "samecode" for v in desc["frames"].values()) else "own-code"]
+    labs += ["elab:" + ",".join(sorted({v[0] for v in desc["elab"].values()})) if desc["nf"] <= 2 else "random"]
     if obs.get("kind") == "ok":
         labs.append("errs=%d" % min(len(obs["errs"]), 3))
         labs.append("frames=%d" % min(len(obs["frames"]), 6))
